@@ -106,6 +106,7 @@ func (w *world) invalidClass(pkg *corev1alpha1.Package) string {
 	switch s.Constraint {
 	case "openshift":
 		if w.env.OpenShift == nil {
+			w.e.Count(fmt.Sprintf("c16_platform_unmet_list_shape_%d", (len(s.Objects)+s.Variant)%3))
 			return "constraint:platform"
 		}
 	case "k8s-new", "os-then-k8s-new":
